@@ -298,3 +298,86 @@ def run(ctx, F, only=None, rule=RULE):
                "BooleanFunction::not_var_edge (%s): %s" % (F.where(fid), "is not(var_edge(var))" if not fails else
                                                            "is not the negation of var_edge(var): " + fails[0]))
     return n
+
+
+def check_zbdd_var_chain(ctx, F, rule=RULE + ".zchain"):
+    """ZBDD `var_edge`: above the node (level; tautology(level+1), Empty) every level 0..level-1 gets a don't-care node.
+    The loop must walk `manager.levels().rev().skip(num_levels - level)` -- i.e. start right above `level` -- and one
+    iteration, interpreted on the edge built so far and the view of level L, must produce node(L; edge, edge) in
+    that view."""
+    import eprep
+    fids = [f for f in F.hir if f.startswith("oxidd_rules_zbdd::apply_rec::") and f.endswith("::var_edge") and "::mt::" not in f]
+    if not ctx.anchor(rule, "ZBDD var_edge", len(fids) == 1):
+        return 0
+    fid = fids[0]
+    body = F.hir[fid]["body"]
+    loops = eprep.for_loops(body)
+    fails = []
+    n = 0
+    if len(loops) != 1:
+        ctx.ob(rule, rule, False, "%s (%s): expected one loop building the chain above the variable's level" % (F.nice(fid), F.where(fid)))
+        return 1
+    it_expr, pat, arm = eprep.loop_parts(loops[0])
+    # resolve `levels` local to its initialiser
+    inits = {s["p"]["n"]: s["e"] for s in body["s"] if s["k"] == "slet" and s["p"].get("k") == "bind" and "e" in s}
+
+    def resolve(e):
+        while isinstance(e, dict) and e.get("k") in ("use",):
+            e = e["e"]
+        if isinstance(e, dict) and e.get("k") == "path" and e.get("res") == "local" and e["n"] in inits:
+            return resolve(inits[e["n"]])
+        return e
+    ok_shape = it_expr.get("k") == "mcall" and it_expr.get("name") == "skip"
+    base = resolve(it_expr["r"]) if ok_shape else None
+    ok_shape = ok_shape and isinstance(base, dict) and base.get("k") == "mcall" and base.get("name") == "rev" and \
+        resolve(base["r"]).get("name") == "levels"
+    if not ok_shape:
+        fails.append("the chain loop does not walk `manager.levels().rev().skip(..)`")
+    else:
+        NL, LV = 7, 3
+
+        class D(CtorDomain):
+            def method(self, it, m, e, env):
+                nm = m.rsplit("::", 1)[-1]
+                if nm == "num_levels":
+                    it.recv(e, env)
+                    return NL
+                if m == "oxidd_core::Manager::var_to_level":
+                    it.recv(e, env)
+                    it.args(e, env)
+                    return LV
+                if nm == "level_no":
+                    r = it.recv(e, env)
+                    if isinstance(r, tuple) and r[0] == "levelview":
+                        return r[1]
+                if m == "oxidd_core::LevelView::get_or_insert":
+                    r = it.recv(e, env)
+                    (node,) = it.args(e, env)
+                    return Enum(OK, [self.insert(r, node)])
+                return super().method(it, m, e, env)
+
+        def mk(oracle):
+            return Interp(F, D(F, tables.ZBDD, "oxidd_rules_zbdd"), oracle)
+        for trace, (status, val) in enumerate_runs(mk, lambda it: it.ev(it_expr["a"][0], {"$consts": {}, "$fn": fid,
+                                                                                           "manager": Opaque("manager"), "level": LV})):
+            n += 1
+            if status != "ok" or val != NL - LV:
+                fails.append("with %d levels and the variable at level %d the loop skips %s %r levels from the bottom, expected %d "
+                             "(start right above the variable's level)" % (NL, LV, status, val, NL - LV))
+        edge0 = Edge(("N", "sofar"))
+
+        def go(it):
+            env = {"$consts": {}, "$fn": fid, "manager": Opaque("manager"), "level": LV, "$mut": {"edge": edge0}}
+            if not it.match(pat, ("levelview", 2), env):
+                raise Unrecognised("loop pattern")
+            it.ev(arm, env)
+            return env["$mut"]["edge"]
+        for trace, (status, val) in enumerate_runs(mk, go):
+            n += 1
+            okn = status == "ok" and isinstance(val, Edge) and val.node[0] == "NEW" and val.node[1] == 2 and val.node[2] == 2 \
+                and tuple(val.node[3]) == (edge0, edge0)
+            if not okn:
+                fails.append("one iteration at level 2 yields %s %s, expected node(2; edge, edge)" % (status, lab(val)))
+    ctx.ob(rule, rule, not fails, "%s (%s): %s" % (F.nice(fid), F.where(fid), " || ".join(fails[:3]) if fails else
+                                                  "a don't-care node per level above the variable, starting right above it"))
+    return n
